@@ -13,6 +13,9 @@
 #include <stdlib.h>
 #include <string.h>
 #include <sys/mount.h>
+#include <sys/prctl.h>
+#include <sys/wait.h>
+#include <signal.h>
 #include <sys/syscall.h>
 #include <unistd.h>
 
@@ -120,7 +123,7 @@ static void *canary(void *a) {
 }
 
 int main(int argc, char **argv) {
-    const char *mnt = NULL, *outp = "issued";
+    const char *mnt = NULL, *outp = "issued", *ancestor = NULL;
     for (int i = 1; i < argc; i++) {
         if (!strcmp(argv[i], "--mount")) mnt = argv[++i];
         else if (!strcmp(argv[i], "--threads")) T = atoi(argv[++i]);
@@ -128,6 +131,7 @@ int main(int argc, char **argv) {
         else if (!strcmp(argv[i], "--seed")) SEED = atoi(argv[++i]);
         else if (!strcmp(argv[i], "--out")) outp = argv[++i];
         else if (!strcmp(argv[i], "--nullargv")) NULLARGV = 1;
+        else if (!strcmp(argv[i], "--ancestor")) ancestor = argv[++i];
         else if (!strcmp(argv[i], "--canary")) CANARY = 1;
         else if (!strcmp(argv[i], "--stack")) STACK = atol(argv[++i]);
     }
@@ -140,6 +144,21 @@ int main(int argc, char **argv) {
             perror("vthreads: namespace");
             return 3;
         }
+    }
+    if (ancestor) {
+        /* the threads run in a child of a process that carries this name (for exclude_spawns_of lists that name an ancestor) */
+        prctl(PR_SET_NAME, ancestor);
+        pid_t c = fork();
+        if (c != 0) {
+            int st = 0;
+            while (waitpid(c, &st, 0) < 0 && errno == EINTR) {}
+            if (WIFSIGNALED(st)) {
+                signal(WTERMSIG(st), SIG_DFL);
+                raise(WTERMSIG(st));
+            }
+            return WIFEXITED(st) ? WEXITSTATUS(st) : 1;
+        }
+        prctl(PR_SET_NAME, "vthreads-leaf");
     }
     out = fopen(outp, "w");
     if (!out) return 3;
